@@ -1352,14 +1352,40 @@ func (g *pktGen) dhcp(fromClient bool) {
 	}
 	w.Bytes(g.r.Bytes(hlen))
 	w.Zero(16 - hlen)
-	if g.r.Chance(0.2) { // sname
+	// option overload (RFC 2132 9.3, option 52): the sname and/or file fields carry options.
+	// Added after the sensitivity waves: the overloaded fields may themselves contain an
+	// overload option (meaningless, but bytes a server can receive).
+	overload := 0
+	if g.r.Chance(0.12) {
+		overload = 1 + g.r.Intn(3)
+	}
+	overloaded := func(size int) {
+		start := w.Len()
+		if g.r.Chance(0.4) {
+			w.MU8(52, "dhcp.opt.type")
+			w.MU8(1, "dhcp.opt.len")
+			w.U8(uint8(1 + g.r.Intn(3)))
+		}
+		for k := g.r.Intn(4); k > 0 && w.Len()-start < size-8; k-- {
+			w.MU8([]uint8{1, 3, 6, 12, 51, 54}[g.r.Intn(6)], "dhcp.opt.type")
+			w.MU8(4, "dhcp.opt.len")
+			w.Bytes(g.r.Bytes(4))
+		}
+		w.MU8(255, "dhcp.opt.type")
+		w.Zero(size - (w.Len() - start))
+	}
+	if overload&2 != 0 {
+		overloaded(64)
+	} else if g.r.Chance(0.2) { // sname
 		s := g.r.Range(1, 63)
 		w.Bytes(g.ascii(s))
 		w.Zero(64 - s)
 	} else {
 		w.Zero(64)
 	}
-	if g.r.Chance(0.2) { // file
+	if overload&1 != 0 {
+		overloaded(128)
+	} else if g.r.Chance(0.2) { // file
 		s := g.r.Range(1, 127)
 		w.Bytes(g.ascii(s))
 		w.Zero(128 - s)
@@ -1367,6 +1393,11 @@ func (g *pktGen) dhcp(fromClient bool) {
 		w.Zero(128)
 	}
 	w.MU32(0x63825363, "dhcp.magic")
+	if overload != 0 {
+		w.MU8(52, "dhcp.opt.type")
+		w.MU8(1, "dhcp.opt.len")
+		w.U8(uint8(overload))
+	}
 	g.dhcpOptions(g.r.Range(0, 20), fromClient)
 	// trailing zero bytes after the end option: BOOTP minimum of 300 bytes, or up to the hint
 	if n := 300 - (w.Len() - start); n > 0 && g.r.Chance(0.6) {
